@@ -18,6 +18,7 @@ SPEC_BYTES = {"file::SIGNATURE": b"CGPH", "file::OID_FAN_CHUNK_ID": b"OIDF", "fi
 
 
 def run(db, chk):
+    chain_offset_rule(db, chk)
     for n, want in SPEC_INT.items():
         c = db.const(P + n)
         chk.ob("spec-constant", n, c.get("v") == want, "is %r, format says %r" % (c.get("v"), want), "%s:%d" % (c["file"], c["line"]), key="spec-constant|" + n)
@@ -60,3 +61,57 @@ def run(db, chk):
     # fan-out bisection bounds (shared rule with C09)
     from props import _fan
     _fan.fan_bounds(chk, db.one(r"^gix_commitgraph::file::access::<impl gix_commitgraph::File>::lookup_inner$"), "commit-graph File::lookup_inner")
+
+
+def chain_offset_rule(db, chk):
+    """graph position of a commit found in file k of a split chain = its position in that file + the commit counts of ALL earlier files: the offset
+    that Graph::lookup_by_id adds to the file position is loop-carried and every assignment to it inside the loop ADDS to its previous value."""
+    from gx.flow import Flow
+    f = db.one(r"^gix_commitgraph::access::<impl gix_commitgraph::Graph>::lookup_by_id$")
+    fl = Flow(f)
+    loops_ = f.loops()
+    chk.floor("Graph::lookup_by_id: loop over the chain files", len(loops_), 1)
+    body = set()
+    for l in loops_:
+        body |= set(l["body"])
+    # the offset: an operand of an Add whose result flows into the Position that is returned, defined outside the loop as well
+    cands = set()
+    for bi, si, pl, rv, ln, mc in f.assigns():
+        if rv[0] == "bin" and rv[1].startswith("Add"):
+            for op in (rv[2], rv[3]):
+                if "p" in op and len(op["p"]) == 1:
+                    l0 = op["p"][0]
+                    # follow plain copies
+                    for _ in range(3):
+                        ds = [(b2, r2) for b2, s2, p2, r2, l2, m2 in f.assigns() if p2 == [l0]]
+                        if len(ds) == 1 and ds[0][1][0] == "use" and "p" in ds[0][1][1] and len(ds[0][1][1]["p"]) == 1:
+                            l0 = ds[0][1][1]["p"][0]
+                        else:
+                            break
+                    defs = [(b2, r2) for b2, s2, p2, r2, l2, m2 in f.assigns() if p2 == [l0]] + [(c.block, ("call",)) for c in f.calls() if c.dest == [l0]]
+                    if any(b2 not in body for b2, r2 in defs) and any(b2 in body for b2, r2 in defs) and f.local_name(l0):
+                        cands.add(l0)
+    chk.floor("Graph::lookup_by_id: loop-carried offset added to the file position", len(cands), 1)
+    for l0 in cands:
+        bad = []
+        for bi, si, pl, rv, ln, mc in f.assigns():
+            if pl != [l0] or bi not in body:
+                continue
+            # accept `l0 = (l0 + x).0` shapes: the value derives from an Add that has l0 as operand
+            ok = False
+            seen, work = set(), [rv]
+            while work:
+                r = work.pop()
+                if r[0] == "bin" and r[1].startswith("Add") and any("p" in o and o["p"][0] == l0 for o in (r[2], r[3])):
+                    ok = True
+                if r[0] == "use" and "p" in r[1]:
+                    src = r[1]["p"][0]
+                    if src not in seen:
+                        seen.add(src)
+                        work += [r2 for b2, s2, p2, r2, l2, m2 in f.assigns() if p2 == [src]]
+            if not ok:
+                bad.append(ln)
+        bad += [c.line for c in f.calls() if c.dest == [l0] and c.block in body]
+        chk.ob("chain-offset-accumulates", "Graph::lookup_by_id offset `%s`" % f.local_name(l0), not bad,
+               "the offset is overwritten instead of accumulated (line %s): ids found in the third or a later file of a split chain get the graph position of a different commit" % bad,
+               "%s:%d" % (f.file, bad[0] if bad else f.line), key="chain-offset|lookup_by_id")
